@@ -262,11 +262,13 @@ def copies_run(case):
     from polyply.src.build_system import BuildSystem
     import polyply.src.random_walk as rw
     nres, ncopies = case['nres'], case['ncopies']
+    nsol = case.get('solvent', 0)
     atoms = "\n".join(f"{i} N0 {i} PEO BB {i} 0.00 45" for i in range(1, nres + 1))
     bonds = "\n".join(f"{i} {i + 1} 1 0.47 2000" for i in range(1, nres))
     lines = (["[ defaults ]", "1 1 no 1.0 1.0", "[ atomtypes ]", "N0 45.0 0.000 A 0.0 0.0", "[ nonbond_params ]", "N0 N0 1 4.7e-01 3.7e+00",
               "[ moleculetype ]", "PEO 1", "[ atoms ]"] + atoms.split("\n") + ["[ bonds ]"] + bonds.split("\n") +
-             ["[ system ]", "s", "[ molecules ]", f"PEO {ncopies}"])
+             (["[ moleculetype ]", "SOL 1", "[ atoms ]", "1 N0 1 SOL W 1 0.00 45"] if nsol else []) +
+             ["[ system ]", "s", "[ molecules ]"] + ([f"SOL {nsol}"] if nsol else []) + [f"PEO {ncopies}"])
     _random.seed(case['seed'])
     np.random.seed(case['seed'])
     sink = io.StringIO()
@@ -275,21 +277,28 @@ def copies_run(case):
         topology = Topology(ForceField("t"))
         read_topology(lines=lines, topology=topology, cwdir="./")
         topology.preprocess()
-        topology.volumes = {"PEO": 0.43}
-        box = np.array([8.0, 8.0, 8.0])
-        if case['supplied']:
+        topology.volumes = {"PEO": 0.43, "SOL": 0.43}
+        box = np.array([8.0, 8.0, 8.0]) if not nsol else np.array([10.5, 10.5, 10.5])
+        if case['supplied'] or nsol:
             with systems.Workdir() as wd:
                 gro = os.path.join(wd, 'partial.gro')
                 with open(gro, 'w') as fh:
-                    fh.write("partial\n%5d\n" % case['supplied'])
+                    fh.write("partial\n%5d\n" % (case['supplied'] + nsol))
+                    side = int(np.ceil(nsol ** (1.0 / 3.0))) if nsol else 0
+                    for k in range(nsol):
+                        # the solvent the newest KD-tree is filled with: on a lattice in the upper part of the box
+                        x, y, z = k % side, (k // side) % side, k // (side * side)
+                        fh.write("{:5d}{:<5s}{:>5s}{:5d}{:8.3f}{:8.3f}{:8.3f}\n".format((k + 1) % 100000, "SOL", "W", (k + 1) % 100000,
+                                                                                      0.25 + 0.55 * x, 0.25 + 0.55 * y, 2.6 + 0.43 * z))
                     for i in range(case['supplied']):
                         fh.write("{:5d}{:<5s}{:>5s}{:5d}{:8.3f}{:8.3f}{:8.3f}\n".format(i + 1, "PEO", "BB", i + 1, 1.0 + 0.47 * i, 1.0, 1.0))
                     fh.write("{:10.5f}{:10.5f}{:10.5f}\n".format(*box))
                 topology.add_positions_from_file(gro, resolution="meta_mol")
         user = {(mi, n): np.array(mol.nodes[n]['position'], dtype=float) for mi, mol in enumerate(topology.molecules) for n in mol.nodes
                 if not mol.nodes[n].get('build', True)}
-        builder = BuildSystem(topology, density=None, start_dict={i: None for i in range(ncopies)}, box=box, grid_spacing=1.0, maxiter=50)
-        attempts, calls = {}, {}
+        builder = BuildSystem(topology, density=None, start_dict={i: None for i in range(ncopies + nsol)}, box=box,
+                              grid_spacing=1.0 if not nsol else 0.5, maxiter=50)
+        attempts, calls, reached = {}, {}, {}
 
         def registered(engine, gndx):
             return sum(list(idxs).count(gndx) for idxs in engine.defined_idxs)
@@ -311,7 +320,9 @@ def copies_run(case):
         def update_positions(self, vector_bundle, current_node, prev_node):
             key = (self.mol_idx, attempts[self.mol_idx])
             calls[key] = calls.get(key, 0) + 1
-            if [self.mol_idx, attempts[self.mol_idx], calls[key]] in case['fail']:
+            # attempts are counted from the first one that reaches a growth step (earlier ones ended at the start residue)
+            first = reached.setdefault(self.mol_idx, attempts[self.mol_idx])
+            if [self.mol_idx, attempts[self.mol_idx] - first + 1, calls[key]] in case['fail']:
                 return False
             return real_update(self, vector_bundle, current_node, prev_node)
         rw.RandomWalk.run_molecule, rw.RandomWalk.update_positions = run_molecule, update_positions
@@ -341,6 +352,13 @@ def copies_cases(ctx, n, extra=()):
         nres, ncopies = rng.randint(4, 6), rng.randint(2, 4)
         fail = [[rng.randint(0 if rng.random() < 0.3 else 1, ncopies - 1), 1, rng.randint(1, nres - 1)] for _ in range(rng.randint(1, 2))]
         todo.append({'nres': nres, 'ncopies': ncopies, 'supplied': rng.choice([0, 1, 2, nres - 1]), 'fail': fail, 'seed': rng.randrange(10 ** 6)})
+    if n:
+        # more than 5000 positioned residues when a chain starts: its start residue opens a new KD-tree of the engine; the
+        # first growth step of the first attempt fails
+        for _ in range(1 if n < 50 else 3):
+            nsol = rng.randint(5001, 5040)
+            todo.append({'nres': rng.randint(4, 6), 'ncopies': 2, 'supplied': 0, 'solvent': nsol, 'fail': [[nsol, 1, 1], [nsol + 1, 1, rng.randint(1, 3)]],
+                         'seed': rng.randrange(10 ** 6)})
     for case in todo:
         try:
             bad, attempts = copies_run(case)
@@ -350,6 +368,8 @@ def copies_cases(ctx, n, extra=()):
             continue
         ctx.case(('copies', json.dumps(case, sort_keys=True)), nontrivial=any(v > 1 for v in attempts.values()), sample=case)
         ctx.feature('copies_with_partly_supplied_first_copy' if case['supplied'] else 'copies_all_built')
+        if case.get('solvent'):
+            ctx.feature('copies_started_with_more_than_5000_positions_in_the_newest_tree')
         if any(v > 1 for v in attempts.values()):
             ctx.feature('copies_with_abandoned_attempt')
         for b in bad[:1]:
